@@ -136,6 +136,42 @@ const TEXTS_ESC: &[(&str, &str)] = &[
     ("&lt;tag&gt;", "<tag>"),
     ("x&#32;y", "x y"),
 ];
+/// `<!DOCTYPE root [ <!ELEMENT ..> <!ATTLIST ..> .. ]>` for the root and up to five descendants (document order).
+/// The declarations say nothing about the structure of the instance: an inference that reads events of the
+/// document must render the same with and without them.
+fn attlist_subset(root: &Node) -> String {
+    let mut names: Vec<(&str, &[String])> = Vec::new();
+    let mut stack = vec![root];
+    while let Some(n) = stack.pop() {
+        if names.len() >= 6 {
+            break;
+        }
+        if !names.iter().any(|(k, _)| *k == n.name) {
+            names.push((&n.name, &n.attrs));
+        }
+        let kids: Vec<&Node> = n.children().collect();
+        for c in kids.into_iter().rev() {
+            stack.push(c);
+        }
+    }
+    let mut d = format!("<!DOCTYPE {} [\n", root.name);
+    for (name, attrs) in names {
+        d.push_str(&format!("  <!ELEMENT {} ANY>\n  <!ATTLIST {}", name, name));
+        for (i, a) in attrs.iter().take(4).enumerate() {
+            let decl = match i % 4 {
+                0 => "CDATA \"dflt\"",
+                1 => "CDATA #IMPLIED",
+                2 => "(one|two) 'one'",
+                _ => "CDATA #REQUIRED",
+            };
+            d.push_str(&format!("\n      {} {}", a, decl));
+        }
+        d.push_str("\n      dfl-currency CDATA \"EUR\"\n      dfl-unit (piece|kg) \"piece\"\n      dfl-vat CDATA #FIXED \"19\"\n      dfl-origin NMTOKEN 'DE'\n      dfl-note CDATA #IMPLIED>\n");
+    }
+    d.push_str("]>");
+    d
+}
+
 /// references to general entities declared by ENT_SUBSET (the logical value is what a DTD-aware parser would see)
 const TEXTS_ENT: &[(&str, &str)] = &[("&e;", "v"), ("&nbsp;", "\u{a0}"), ("&copy;", "(c)"), ("a&e;b", "avb"), ("&copy; 2024 &e;", "(c) 2024 v"), ("&d;", "d")];
 const ENT_SUBSET: &str = "<!ENTITY e \"v\"><!ENTITY nbsp \"&#160;\"><!ENTITY copy \"(c)\"><!ENTITY d 'd'>";
@@ -503,12 +539,16 @@ impl<'t, 'c> Ser<'t, 'c> {
             let subset = format!("<!DOCTYPE {} [<!ELEMENT {} ANY><!ENTITY e \"v\">]>", root.name, root.name);
             // a long internal subset with multi-byte characters at varying byte offsets
             let long_subset = if self.cfg.long_content { format!("<!DOCTYPE {} [<!ENTITY c \"{}\">]>", root.name, self.long_run().replace('"', "'").replace('%', "p").replace('&', "a").replace('<', "l")) } else { subset.clone() };
-            let which = self.t.choose(if self.cfg.doctype_subset { 4 } else { 2 });
+            // attribute-list declarations (defaults, #FIXED, #IMPLIED, #REQUIRED, enumerations) for the root and the
+            // first few descendants: declared for attributes the elements carry and for ones no occurrence spells
+            let attlist_subset = if self.cfg.doctype_subset { attlist_subset(root) } else { subset.clone() };
+            let which = self.t.choose(if self.cfg.doctype_subset { 6 } else { 2 });
             self.push(match which {
                 0 => &plain,
                 1 => &sys,
                 2 => &subset,
-                _ => &long_subset,
+                3 => &long_subset,
+                _ => &attlist_subset,
             });
             if self.cfg.outer_ws && self.t.chance(128) {
                 self.push("\n");
